@@ -1,6 +1,6 @@
 (* C10 -- interactive commands: output, exit status and early exit are reported faithfully.
    Property theorems only; proofs are in ProofC10.v (over the models Proxy.v, Session.v, Channel.v). *)
-From TV Require Import Base Utf8 Regex Channel ChannelCorr ChannelLemmas ProofC05 Hush Session ProofSession Sh Proxy ProofC10 ProofC10b.
+From TV Require Import Base Utf8 Regex Channel ChannelCorr ChannelLemmas ProofC05 Hush Session ProofSession Sh ProofC01 Proxy ProofC10 ProofC10b ProofCalm ProofC10c.
 
 (* (1) after termination, and after an early exit has been noticed, EVERY sequence of proxy operations raises
        CommandEndedException and leaves the proxy and the transport exactly as they were *)
@@ -93,3 +93,70 @@ Theorem C10_run_establishes_the_invariant :
     wfc (pc p) /\ only_prompt P (pc p) /\ dinv (deaths (pc p)) [[]] /\ cpend (pc p) = rest.
 Proof. exact run_start_establishes. Qed.
 Print Assumptions C10_run_establishes_the_invariant.
+
+(* (7) conservation, for EVERY fragmentation of the console output: run() sends the command line and registers the
+       shell prompt; then the test and the program exchange lines -- each line is echoed, answered, and followed by the
+       program's own prompt; the line that makes the program exit is sent; terminate() is called.  As long as the shell
+       prompt does not occur in what the console prints while the command runs, the test obtains exactly the program's
+       answers, in order, terminate() returns exactly the rest of the output and the status the shell reports
+       (terminate0: CommandFailure iff non-zero), and the channel is back in sync. *)
+Theorem C10_run_establishes_the_running_invariant :
+  forall cmd P parent (stg : stage) (sts : list stage) rest,
+  insync parent -> prompt parent = Some (SLit P) -> P <> [] ->
+  any_in (blacklist parent) (cmd ++ [CR]) = false ->
+  wf_pend stg -> cat stg = tty_echo false (cmd ++ [CR]) ++ rest ->
+  exists p, run_start cmd (stg :: sts) parent = (VL [VN 0], p) /\ runningp P p [] rest /\
+            wr (io (pc p)) = wr (io parent) ++ cmd ++ [CR] /\ blacklist (pc p) = blacklist parent.
+Proof. exact run_start_runningp. Qed.
+Print Assumptions C10_run_establishes_the_running_invariant.
+
+Theorem C10_first_output_up_to_the_programs_prompt :
+  forall P p h own answer,
+  runningp P p h (answer ++ own) -> own <> [] -> prompt_only_at_end own answer ->
+  contains P (h ++ answer ++ own) = false ->
+  exists p1,
+    proxy_io (ORup (Some (SLit own)) None) [] p = (V_data (text answer), p1) /\
+    runningp P p1 (h ++ answer ++ own) [] /\ wr (io (pc p1)) = wr (io (pc p)) /\ blacklist (pc p1) = blacklist (pc p).
+Proof. exact proxy_rup_own. Qed.
+Print Assumptions C10_first_output_up_to_the_programs_prompt.
+
+Theorem C10_conservation :
+  forall P own xs p h exit_line (st_exit st_status : stage) (sts : list stage) out ds z,
+  runningp P p h [] -> own <> [] ->
+  Forall (exch_ok own (blacklist (pc p))) xs ->
+  wf_pend st_exit -> any_in (blacklist (pc p)) (exit_line ++ [CR]) = false ->
+  cat st_exit = tty_echo false (exit_line ++ [CR]) ++ out ++ P -> prompt_only_at_end P out ->
+  contains P (h ++ received xs ++ tty_echo false (exit_line ++ [CR])) = false ->
+  any_in (blacklist (pc p)) (ECHO_Q ++ [CR]) = false ->
+  wf_pend st_status -> cat st_status = tty_echo false (ECHO_Q ++ [CR]) ++ (ds ++ [CR; LF]) ++ P ->
+  all_digits ds -> ds <> [] -> prompt_only_at_end P (ds ++ [CR; LF]) ->
+  exists p',
+    run_script (flat_map (exch_steps own) xs ++
+                [PIo (OSendline false exit_line true None) [st_exit]; PTerm z (st_status :: sts)]) p [] =
+      (answers xs ++ [VL [VN 0]; V_tres (if z && negb (dec_val ds =? 0)%Z then TFailure else TOk (dec_val ds) (text out))], p') /\
+    st p' = PTerminated /\ alive p' = false /\ insync (pc p').
+Proof. exact run_conservation. Qed.
+Print Assumptions C10_conservation.
+
+(* ... the same from the machine in sync to the machine in sync *)
+Theorem C10_whole_run_session_exact :
+  forall cmd P own parent (st_cmd : stage) banner xs exit_line (st_exit st_status : stage) (sts : list stage) out ds z,
+  insync parent -> prompt parent = Some (SLit P) -> P <> [] -> own <> [] ->
+  any_in (blacklist parent) (cmd ++ [CR]) = false ->
+  wf_pend st_cmd -> cat st_cmd = tty_echo false (cmd ++ [CR]) ++ banner ++ own -> prompt_only_at_end own banner ->
+  Forall (exch_ok own (blacklist parent)) xs ->
+  wf_pend st_exit -> any_in (blacklist parent) (exit_line ++ [CR]) = false ->
+  cat st_exit = tty_echo false (exit_line ++ [CR]) ++ out ++ P -> prompt_only_at_end P out ->
+  contains P ((banner ++ own) ++ received xs ++ tty_echo false (exit_line ++ [CR])) = false ->
+  any_in (blacklist parent) (ECHO_Q ++ [CR]) = false ->
+  wf_pend st_status -> cat st_status = tty_echo false (ECHO_Q ++ [CR]) ++ (ds ++ [CR; LF]) ++ P ->
+  all_digits ds -> ds <> [] -> prompt_only_at_end P (ds ++ [CR; LF]) ->
+  exists p0 p',
+    run_start cmd [st_cmd] parent = (VL [VN 0], p0) /\
+    run_script (PIo (ORup (Some (SLit own)) None) [] :: flat_map (exch_steps own) xs ++
+                [PIo (OSendline false exit_line true None) [st_exit]; PTerm z (st_status :: sts)]) p0 [] =
+      (V_data (text banner) :: answers xs ++
+       [VL [VN 0]; V_tres (if z && negb (dec_val ds =? 0)%Z then TFailure else TOk (dec_val ds) (text out))], p') /\
+    st p' = PTerminated /\ alive p' = false /\ insync (pc p').
+Proof. exact run_session_exact. Qed.
+Print Assumptions C10_whole_run_session_exact.
